@@ -523,6 +523,33 @@ def ob_projector_frechet(dim, seed):
     return Verdict(DISCHARGED, backend="native float run vs Daleckii-Krein formula on numpy eigh (1e-7)", sub=n)
 
 
+def ob_eig_near_hydrostatic():
+    """3-D strains that are hydrostatic up to a small uniaxial deviator, eps = a (I + delta n (x) n): all principal values are positive, so eps+ == eps and the negative parts vanish"""
+    from EasyFEA.FEM._linalg import FeArray
+    pf = _model("Miehe", 3)
+    r2 = np.sqrt(2)
+    km = lambda M: np.array([M[0, 0], M[1, 1], M[2, 2], r2 * M[1, 2], r2 * M[0, 2], r2 * M[0, 1]])
+    n_ = np.array([1.0, 2.0, 3.0]) / np.sqrt(14.0)
+    worst, at = 0.0, None
+    for a in (1e-3, 1.0):
+        for delta in (1e-3, 1e-5, 1e-6, 1e-7, 1e-9):
+            A = a * (np.eye(3) + delta * np.outer(n_, n_))
+            eps = km(A)[None, None, :]
+            with np.errstate(all="ignore"):
+                projP, projM = pf._PhaseField__Spectral_Decomposition(FeArray.asfearray(eps.copy()))
+            got = np.asarray(projP)[0, 0] @ eps[0, 0]
+            e = float(np.abs(got - eps[0, 0]).max() / np.abs(eps).max())
+            if not np.isfinite(e):
+                e = float("inf")
+            if e > worst:
+                worst, at = e, (a, delta)
+    if worst > 1e-6:
+        raise Refuted(f"3-D strain a (I + delta n (x) n) with a = {at[0]:g}, delta = {at[1]:g} (three positive principal values): projP . eps differs from eps by {worst:.3e} |eps| "
+                      "(the nearly repeated principal values are sent to the three-distinct-values branch, which divides by their round-off gap)", cex=dict(a=at[0], delta=at[1], n=n_.tolist()),
+                      signature="eig3d:nearhydro", replay=dict(confirmed=True, rel_err=worst))
+    return Verdict(DISCHARGED, backend="native vs the state itself", sub=10)
+
+
 def ob_damage_monotone(solver):
     """Load / unload sequence on a small mesh (native floats): between saved steps the stored nodal damage (damage-based solvers) and the
     history energy at every integration point (History solver) never decrease; with no loading the damage stays zero."""
@@ -626,6 +653,9 @@ def build(tier, seed):
     for dim in (2, 3):
         obs.append(Ob(f"C17.eig.native.{dim}d", ob_eig_native, (dim, seed), "X", (f"{MP}::PhaseField._Eigen_values_vectors_projectors",),
                       bound="14 designated fields (8 uniform kinds + 6 mixed 2x2 fields), floats", clause="finite; eigenvalues/projectors agree with numpy eigh", timeout=120))
+        if dim == 3:
+            obs.append(Ob("C17.eig.native.3d.nearhydro", ob_eig_near_hydrostatic, (), "X", (f"{MP}::PhaseField._Eigen_values_vectors_projectors",), bound="10 states a (I + delta n (x) n), delta from 1e-3 to 1e-9",
+                          clause="nearly hydrostatic tensile states: eps+ == eps", timeout=120))
         obs.append(Ob(f"C17.projector.frechet.{dim}d", ob_projector_frechet, (dim, seed), "X", (f"{MP}::PhaseField.__Spectral_Decomposition",),
                       bound="designated fields with no vanishing principal value (generic, hydrostatic, two equal largest / smallest values, compression; uniform and mixed), floats",
                       clause="P+ == d(eps+)/d(eps) as given by the divided-difference formula on an independent eigen-decomposition", timeout=120))
